@@ -23,3 +23,11 @@ Proof. intros V sem. exact (perm_level_sound sem). Qed.
 Theorem C07_threads_once : forall X Y bx by_, 0 < bx -> 0 < by_ ->
   NoDup (threads X Y bx by_) /\ (forall x y, In (x, y) (threads X Y bx by_) <-> (x < X /\ y < Y)).
 Proof. exact threads_cover. Qed.
+
+(* the scheduler's op list IS in single-assignment topological form for every well-formed netlist, so C07_levels_valid applies *)
+From KV Require Import Model.NetlistWf.
+From KV Require Proofs.SemProofs.
+From Coq Require Import ZArith.
+Theorem C07_build_ops_ssa : forall c, wf_netlist c -> comb_acyclic c ->
+  ssa_topo (repeat (-1)%Z (length (c_lines c) + 3 + 2 * length (s_nodes c))) (length (c_lines c) + 1) (build_ops c false) = true.
+Proof. exact KV.Proofs.SemProofs.build_ops_ssa. Qed.
